@@ -1211,8 +1211,9 @@ struct json_object *json_tokener_parse_ex(struct json_tokener *tok, const char *
 				saved_state = json_tokener_state_finish;
 				state = json_tokener_state_eatws;
 			}
-			else if (c == '"' || c == '\'')
+			else if (c == '"' || (c == '\'' && !(tok->flags & JSON_TOKENER_STRICT)))
 			{
+				/* in STRICT mode only double-quote are allowed */
 				tok->quote_char = c;
 				printbuf_reset(tok->pb);
 				state = json_tokener_state_object_field;
